@@ -254,6 +254,8 @@ def run(chk):
         "expression-free, two instances": (["dff u0 (.clk(ck), .d(a), .q(w), .qn(v)), u1 (.clk(ck), .d(w), .q(o), .qn(t));"], {"clk": "ck", "d": "a", "q": "w", "qn": "v"}),
         "unconnected-pins": (["dff u0 (.clk(ck), .d(a), .q(o), .qn());"], {"clk": "ck", "d": "a", "q": "o", "qn": None}),
         "unconnected-input-pin": (["dff u0 (.clk(), .d(a), .q(o), .qn(v));"], {"clk": None, "d": "a", "q": "o", "qn": "v"}),
+        "one-net-on-two-input-pins": (["dff u0 (.clk(a), .d(a), .q(o), .qn(v));"], {"clk": "a", "d": "a", "q": "o", "qn": "v"}),
+        "feedback-net-on-input-and-output-pin": (["dff u0 (.clk(ck), .d(w), .q(w), .qn(v));", "assign o = w;"], {"clk": "ck", "d": "w", "q": "w", "qn": "v"}),
     }
     for name, (body, conns) in cases.items():
         text = module_text(["ck", "a"], ["o"], ["w", "v", "t"], body)
@@ -284,6 +286,14 @@ def run(chk):
         except ParseError as ex:
             prob = {"error": str(ex)[:200]}
         chk.ob("C02.B.blackbox-instance", f"blackbox::{name}", prob is None, file=FILE, func="_VerilogCircuitGraphTransformer.module_instantiation", fact=prob or {}, expect="instance recorded; every pin attached to the named net")
+    text = module_text(["ck"], ["o"], ["v"], ["dff u0 (.clk(1'b0), .d(1'b0), .q(o), .qn(v));"])
+    try:
+        c = full_parse(P, text, [ff])
+        drv = {pin: sorted(c.fanin(f"u0.{pin}")) for pin in ("clk", "d")}
+        prob = None if all(len(v) == 1 and c.type(v[0]) == "0" for v in drv.values()) else {"problem": "a constant used on two pins is not attached to both", "drivers": drv}
+    except ParseError as ex:
+        prob = {"error": str(ex)[:200]}
+    chk.ob("C02.B.blackbox-instance", "blackbox::one constant on two pins", prob is None, file=FILE, func="_VerilogCircuitGraphTransformer.add_blackbox", fact=prob or {}, expect="both pins driven by the constant 0")
     text = module_text(["a"], ["o"], [], ["mystery u0 (.d(a), .q(o));"])
     try:
         full_parse(P, text, [ff])
